@@ -136,6 +136,25 @@ unsafe fn unsigned_le(a: __m128i, b: __m128i) -> __m128i {
     _mm_cmpeq_epi8(min_ab, a)
 }
 
+/// Verification hook: the six classification masks of one 16-byte chunk in the
+/// order quotes, backslashes, opens, closes, delims, value_chars.
+#[cfg(all(feature = "verif-hooks", target_arch = "x86_64"))]
+pub fn verif_classify_chars(chunk: &[u8; 16]) -> [u32; 6] {
+    // SAFETY: SSE2 is part of the x86_64 baseline; `chunk` is 16 readable bytes.
+    unsafe {
+        let v = _mm_loadu_si128(chunk.as_ptr().cast::<__m128i>());
+        let c = classify_chars(v);
+        [
+            c.quotes as u32,
+            c.backslashes as u32,
+            c.opens as u32,
+            c.closes as u32,
+            c.delims as u32,
+            c.value_chars as u32,
+        ]
+    }
+}
+
 /// Process a 16-byte chunk and update IB/BP writers.
 /// Returns the new state after processing all 16 bytes.
 #[inline]
